@@ -21,7 +21,7 @@ DEMO=$(cd "$WT" && go test -vet=off -count=1 -run "TestSeeded_$ID" ./... 2>&1 | 
 rm -f "$WT/demo_test.go"
 RES=""
 for P in $PROPS; do
-  OUT=$(cd /verif && VERIF_REPO="$WT" ./check.sh "$P" quick 2>&1); RC=$?
+  OUT=$(cd /verif && VERIF_EVIDENCE_DIR=/tmp/evidence-scratch VERIF_REPO="$WT" ./check.sh "$P" quick 2>&1); RC=$?
   SIGS=$(echo "$OUT" | grep '^  signature:' | sed 's/^  signature: //' | sort -u | head -5 | tr '\n' ';')
   RES="$RES{\"check\":\"$P\",\"tier\":\"quick\",\"exit\":$RC,\"signatures\":\"$SIGS\"},"
   echo "$ID check=$P exit=$RC sigs=$SIGS"
